@@ -51,6 +51,22 @@ Theorem C15_cluster_connected :
 Proof. exact cluster_connected_lemma. Qed.
 Print Assumptions C15_cluster_connected.
 
+(* the core invariant (Acc_inv, Recon/Cluster.v): every bin of the accumulator holds exactly the live points
+   that vote for it, with multiplicity; `add` and `remove_unchecked` maintain it, and under it
+   remove_unchecked of a live point never panics *)
+Theorem C15_acc_add_invariant :
+  forall (bins : point -> list bin), (forall p, NoDup (bins p)) ->
+  forall live a p, Acc_inv bins live a -> Acc_inv bins (live ++ [p]) (acc_add bins a p).
+Proof. exact add_inv. Qed.
+Print Assumptions C15_acc_add_invariant.
+
+Theorem C15_acc_remove_invariant :
+  forall (bins : point -> list bin), (forall p, NoDup (bins p)) ->
+  forall live a p, Acc_inv bins (p :: live) a ->
+  exists a', acc_remove bins a p = Ok a' /\ Acc_inv bins live a'.
+Proof. exact remove_inv. Qed.
+Print Assumptions C15_acc_remove_invariant.
+
 (* the inner `while j < points.len()` loop is executed by the model on a zipper; it is, outcome for outcome and
    with the same fuel, the index loop with swap_remove(j) transcribed from track_finding.rs:198-204 *)
 Theorem C15_flood_zipper_is_index_loop :
